@@ -226,6 +226,51 @@ pub fn run_case(cx: &mut Ctx) {
         }
     };
     cx.part.count("configurations_accepted", 1);
+    // relatives of the list that has just been accepted (same thread, same process): the verdict on a
+    // configuration must not depend on what was validated before
+    if cfg.len() >= 2 && rng.chance(1, 3) {
+        let mut rels: Vec<Vec<f64>> = Vec::new();
+        let (i, j) = (rng.usize_below(cfg.len()), rng.usize_below(cfg.len()));
+        let mut swapped = cfg.clone();
+        swapped.swap(i, j);
+        rels.push(swapped);
+        rels.push(cfg.iter().rev().cloned().collect());
+        let mut dup = cfg.clone();
+        dup[i] = cfg[j];
+        rels.push(dup);
+        let mut nan = cfg.clone();
+        nan[i] = f64::NAN;
+        rels.push(nan);
+        let mut rotated = cfg.clone();
+        rotated.rotate_left(1);
+        rels.push(rotated);
+        rels.push(cfg.clone());
+        for rel in rels {
+            let o = HistogramOpts::new("c08_hist_rel", "h").buckets(rel.clone());
+            let got = catch(|| {
+                if via_vec {
+                    HistogramVec::new(o.clone(), &["l"]).and_then(|v| v.get_metric_with_label_values(&["x"])).map(|_| ())
+                } else {
+                    Histogram::with_opts(o.clone()).map(|_| ())
+                }
+            });
+            cx.part.count("relatives_of_accepted_configurations_tried", 1);
+            let rel_json = || jobj! {"accepted_before" => Json::Arr(cfg.iter().map(|b| Json::Str(fbits(*b))).collect()), "then" => Json::Arr(rel.iter().map(|b| Json::Str(fbits(*b))).collect()), "via_vec" => via_vec};
+            match got {
+                Err(p) => {
+                    cx.violation("histogram-constructor-panicked", site, p, rel_json());
+                    return;
+                }
+                Ok(r) => {
+                    if r.is_ok() != acceptable(&rel) {
+                        let rule = if r.is_ok() { "bad-bucket-configuration-accepted" } else { "strictly-increasing-bounds-refused" };
+                        cx.violation(rule, site, format!("{:?} right after {:?} had been accepted", rel, cfg), rel_json());
+                        return;
+                    }
+                }
+            }
+        }
+    }
     let mut r = Ref::new(effective_bounds(&cfg));
     let mut log: Vec<String> = Vec::new();
     let nops = if cx.case % 64 == 9 { 3000 + rng.usize_below(4000) } else { 5 + rng.usize_below(if cx.thorough { 80 } else { 35 }) };
